@@ -96,6 +96,7 @@ func c18Values(p *prim) []*rm.Value {
 		for _, n := range lengthsFor(f.Prefix) {
 			out = append(out, text(n))
 		}
+		out = append(out, multibyteTexts(f.Prefix)...)
 	case "list":
 		for _, n := range lengthsFor(f.Count) {
 			l := &rm.Value{K: rm.VList, Elems: make([]*rm.Value, n)}
@@ -115,6 +116,9 @@ func c18Values(p *prim) []*rm.Value {
 			for _, n := range lengthsFor(f.Elem.Prefix) {
 				out = append(out, rm.List(text(n)))
 				out = append(out, rm.List(rm.TextS("x"), text(n)))
+			}
+			for _, m := range multibyteTexts(f.Elem.Prefix) {
+				out = append(out, rm.List(m))
 			}
 		}
 	}
@@ -328,4 +332,24 @@ func runC17(r *ev.Run, thorough bool) {
 	r.Sample("sample.NestedPacket constructor result (nil SubPacket, nil InerPacket): Encode must not panic")
 	r.Sample("bjse.BjseBinary nil body, MsgType 0xFFFFFFFF: Encode returns an error")
 	r.Set("bound", map[string]any{"k_deviations": k12(thorough)})
+}
+
+// multibyteTexts: texts of 3-byte runes whose BYTE length is just above / at / below the prefix limit while
+// their CHARACTER count is far below it (a length check in characters instead of bytes lets them through).
+func multibyteTexts(prefix string) []*rm.Value {
+	var out []*rm.Value
+	mk := func(runes int, tail string) *rm.Value {
+		b := make([]byte, 0, runes*3+len(tail))
+		for i := 0; i < runes; i++ {
+			b = append(b, 0xE6, 0x8B, 0x92) // U+62D2
+		}
+		return rm.Text(append(b, tail...))
+	}
+	switch prefix {
+	case "u8":
+		out = append(out, mk(85, ""), mk(85, "a"), mk(86, ""), mk(100, ""), mk(200, ""))
+	case "u16":
+		out = append(out, mk(21845, ""), mk(21845, "a"), mk(21846, ""), mk(30000, ""))
+	}
+	return out
 }
